@@ -746,12 +746,10 @@ theorem Inv.rep_absLog {s : St K V} (h : Inv s) : Rep s (absLog s) := by
 
 /-! ## histories -/
 
-/-- the quantifier of the property: key tuples are non-empty; an assignment whose key tuple holds
-    an unhashable key is outside the refinement (as the code is today it fails half-way, see
-    `setBadKey_sim`: the three maps stay coherent but keys lose their values) -/
+/-- the quantifier of the property: key tuples are non-empty.  Every operation that raises is
+    inside (since the repair 9cbe718 none of them fails half-way). -/
 def Op.valid : Op K V → Prop
   | .set keys _ => keys ≠ []
-  | .setBadKey _ _ _ => False
   | _ => True
 
 /-- nothing the coherence invariant needs is excluded: only the empty key tuple -/
@@ -769,15 +767,15 @@ theorem delLoop_unbound (p : List K) (s : St K V) (h : ∀ k ∈ p, dhas s.keysD
     simp only [delLoop, hk, Bool.false_eq_true, if_false]
     exact ih (fun x hx => h x (List.mem_cons_of_mem _ hx))
 
-/-- an assignment whose key tuple holds an unhashable key, as the code is today: the exception is
-    raised, the three maps are still coherent, and they represent the map WITHOUT the keys that
-    stood in front of the unhashable one (`badKeyPrefix`) -/
+/-- an assignment whose key tuple holds an unhashable key, as the code was BEFORE the repair
+    9cbe718: the exception is raised, the three maps are still coherent, and they represent the map
+    WITHOUT the keys that stood in front of the unhashable one (`badKeyPrefix`) -/
 theorem setBadKey_sim {s : St K V} {l : Log K V} (h : Rep s l) (before after : List K) (v : V) :
-    Rep (step s (.setBadKey before after v)).1
+    Rep (setitemBadKey s before after v).1
         (l.filter (fun e => e.1 ∉ badKeyPrefix s before after v)) ∧
-      (step s (.setBadKey before after v)).2 = .rejected := by
+      (setitemBadKey s before after v).2 = .rejected := by
   obtain ⟨s1, h1, h2⟩ := delLoop_sim (badKeyPrefix s before after v) h
-  simp only [step, setitemBadKey, h1]
+  simp only [setitemBadKey, h1]
   exact ⟨h2, trivial⟩
 
 theorem step_sim {s : St K V} {l : Log K V} (h : Rep s l) (op : Op K V) (hv : Op.valid op) :
@@ -801,13 +799,23 @@ theorem step_sim {s : St K V} {l : Log K V} (h : Rep s l) (op : Op K V) (hv : Op
   | value2keys v => exact ⟨h, by simp only [step, specStep, h.groups]⟩
   | len => exact ⟨h, by simp only [step, specStep, h.len_eq]⟩
   | setUnhashable keys => exact ⟨h, rfl⟩
-  | setBadKey before after v => exact absurd hv (by simp [Op.valid])
+  | setBadKey before after v => exact ⟨h, rfl⟩
   | badOperand => exact ⟨h, rfl⟩
+  | const r => exact ⟨h, rfl⟩
+  | contains t =>
+    refine ⟨h, ?_⟩
+    have := h.getTuple_eq t
+    simp only [getTuple] at this
+    simp only [step, specStep, dhas, this]
+  | dictGet t => exact ⟨h, by simp only [step, specStep, h.getTuple_eq]⟩
 
-/-- coherence survives EVERY operation, the half-way failing one included -/
+/-- coherence survives EVERY operation -/
 theorem step_inv_any {s : St K V} (h : Inv s) (op : Op K V) (hv : Op.nonEmpty op) : Inv (step s op).1 := by
   cases op with
-  | setBadKey before after v => exact (setBadKey_sim h.rep_absLog before after v).1.inv
+  | setBadKey before after v => exact h
+  | const r => exact h
+  | contains t => exact h
+  | dictGet t => exact h
   | set keys v => exact (step_sim h.rep_absLog (.set keys v) hv).1.inv
   | del k => exact (step_sim h.rep_absLog (.del k) trivial).1.inv
   | get k => exact h
@@ -876,5 +884,8 @@ theorem last_assigned_spec (k : K) (ops : List (Op K V)) : ∀ l : Log K V,
     | setUnhashable _ => simp only [specRun, specStep, lastAssigned, ih]
     | setBadKey _ _ _ => simp only [specRun, specStep, lastAssigned, ih]
     | badOperand => simp only [specRun, specStep, lastAssigned, ih]
+    | const _ => simp only [specRun, specStep, lastAssigned, ih]
+    | contains _ => simp only [specRun, specStep, lastAssigned, ih]
+    | dictGet _ => simp only [specRun, specStep, lastAssigned, ih]
 
 end ALV.C15
